@@ -1,6 +1,7 @@
 package main
 
 import (
+	"strings"
 	"go/ast"
 	"go/token"
 	"go/types"
@@ -64,6 +65,36 @@ func init() {
 					})
 				}
 				ord := &ordinal{}
+				// the same arithmetic handed to a limit check of the module (`CheckAlloc(len(s) * n.Int)`): the
+				// comparison with the limit happens inside the callee, on a number that already wrapped
+				ast.Inspect(u.Decl.Body, func(n ast.Node) bool {
+					ce, ok := n.(*ast.CallExpr)
+					if !ok {
+						return true
+					}
+					f := originOf(Callee(info, ce))
+					if f == nil || f.Pkg() == nil || !strings.HasPrefix(f.Pkg().Path(), modPath) || !strings.HasPrefix(f.Name(), "Check") {
+						return true
+					}
+					for _, a := range ce.Args {
+						ar, ok := ast.Unparen(a).(*ast.BinaryExpr)
+						if !ok || (ar.Op != token.MUL && ar.Op != token.SHL) {
+							continue
+						}
+						tv, ok := info.Types[ar]
+						if !ok || tv.Value != nil {
+							continue
+						}
+						if b, isBasic := tv.Type.Underlying().(*types.Basic); !isBasic || b.Info()&types.IsInteger == 0 {
+							continue
+						}
+						if mentions(ar.X) || mentions(ar.Y) {
+							obs = append(obs, mkOb(c, "OVERFLOW.guard-arith", u, ord.next("limit check on "+types.ExprString(ar)), ce, Violated,
+								"the size handed to "+f.Name()+" is computed with wrapping arithmetic on a lisp-supplied integer: for a huge count the product wraps to a small or negative number, the limit check passes, and the operation then panics in the Go runtime or allocates without bound", true))
+						}
+					}
+					return true
+				})
 				ast.Inspect(u.Decl.Body, func(n ast.Node) bool {
 					cmp, ok := n.(*ast.BinaryExpr)
 					if !ok {
